@@ -767,11 +767,12 @@ impl Sim {
                 trace.drain(..100_000);
             }
             {
+                // the thread that gets the baton and the point it continues from
                 trace.push(TraceStep {
                     step: g.steps,
                     thread: next,
                     name: g.threads[next].name,
-                    site,
+                    site: if next == me { site } else { g.threads[next].last_site },
                     now: g.now,
                 });
             }
